@@ -37,6 +37,7 @@ type c10Case struct {
 	Audio     string `json:"audio,omitempty"`   // fMP4 audio codec: "" = aac, opus
 	VScale    int    `json:"vscale,omitempty"`  // fMP4: timescale of the video track (default 90000)
 	Frames    int    `json:"frames,omitempty"`  // video frames per segment (default 4)
+	NegCTS    bool   `json:"neg_cts,omitempty"` // fMP4 video with signed composition offsets (decode order I b P b): a unit may be decoded after the origin and presented before it
 	SegSec    int    `json:"seg_sec,omitempty"` // seconds per segment (default 1; with Frames: a long-running stream with few units)
 	// Grow: a live stream that ends while it is played: the first answer to a playlist request lists all segments but
 	// the last and has no ENDLIST, the later ones list all of them and ENDLIST (VOD must be false)
@@ -99,6 +100,9 @@ func c10VideoData(kind string, seq int, sync bool) [][]byte {
 }
 
 func (c c10Case) String() string {
+	if c.NegCTS {
+		return fmt.Sprintf("%s signed composition offsets base=%d tracks=%s frags=%d pdt=%v vod=%v nseg=%d", c.Container, c.Base, c.Tracks, c.Frags, c.PDT, c.VOD, c.NSeg)
+	}
 	if c.SegSec > 1 {
 		return fmt.Sprintf("%s long-running base=%d tracks=%s pdt=%v vod=%v nseg=%d of %d s with %d frames", c.Container, c.Base, c.Tracks, c.PDT, c.VOD, c.NSeg, c.SegSec, c.Frames)
 	}
@@ -205,6 +209,9 @@ func c10Build(cs c10Case) (*c10Stream, error) {
 						u.DTS = t90
 						if cs.BFrames && cs.Frames == 0 {
 							u.PTSOff = []int64{22500, 67500, 0, 0}[k]
+						}
+						if cs.NegCTS && cs.Frames == 0 {
+							u.PTSOff = []int64{22500, -45000, 22500, -22500}[k]
 						}
 						if vscale != 90000 {
 							// the same instants expressed in the video track's own timescale
@@ -727,6 +734,15 @@ func c10Cases(tier string) map[string][]c10Case {
 			}
 			for _, pdt := range []bool{false, true} {
 				out[cont+" long-running"] = append(out[cont+" long-running"], c10Case{Container: cont, Base: base, Tracks: "v", Frags: 1, PDT: pdt, VOD: true, NSeg: 14, SegSec: 4000, Frames: 500})
+			}
+		}
+	}
+	// signed composition offsets (trun version 1): in the first downloaded segment a unit is decoded after the origin and
+	// presented before it - it is dropped, not delivered with a negative time
+	for _, tracks := range []string{"v", "va", "v+a"} {
+		for _, frags := range []int{1, 2} {
+			for _, vod := range []bool{true, false} {
+				out["fmp4 codecs"] = append(out["fmp4 codecs"], c10Case{Container: "fmp4", Base: 540000, Tracks: tracks, Frags: frags, PDT: true, VOD: vod, NSeg: 4, NegCTS: true})
 			}
 		}
 	}
